@@ -32,7 +32,7 @@ CHECKS = {
         level="exploration",
         rule="rapid draws blobs (nil, empty, 1 byte, odd, even, chunk-like tokens, up to 70 KB) for every subset of ICC/EXIF/XMP x every source image type and placement x {lossy, lossy+alpha, lossless, lossless+alpha stills; 1-4 frame lossy/lossless animations, and 1 animation in 40 with 500-2100 frames of a tiny canvas}; "
              "oracle: riffwalk validates; blobs byte-exact in the file, via Demuxer.GetChunk and via animation.DecodeBytes; flags <=> chunks; image/ALPH chunk bytes and decoded pixels/playback identical with and without metadata; thorough adds the 100 MB cap (+1 rejected, exactly 100 MB accepted and read back). "
-             "(arena) in a third of the cases the three blobs are consecutive sub-slices of one buffer (spare capacity behind each, the next blob directly behind the previous one): same oracle, and the buffer must be unchanged afterwards. Non-trivial: >=1 non-empty blob; distinct = (kind, subset+parities, codec, alpha, frame count).",
+             "(arena) in a third of the cases the three blobs are consecutive sub-slices of one buffer (spare capacity behind each, the next blob directly behind the previous one): same oracle, and the blobs' bytes in that buffer must be unchanged afterwards. Non-trivial: >=1 non-empty blob; distinct = (kind, subset+parities, codec, alpha, frame count).",
         assumptions=["an empty (zero-length) blob may be stored as an empty chunk or omitted; both accepted"],
         tests=[dict(name="TestC15", quick=2400, thorough=32000), dict(name="TestC15Limit", quick=1, thorough=1, shards=1, thorough_only=True, no_replay=True)],
     ),
